@@ -1,0 +1,26 @@
+//go:build verif
+
+package validation
+
+// Contracts for fvc (see /verif/DESIGN.md). Comment-only file.
+// Validators return an error list; "accepted" means the list is empty.
+
+//@ func ValidateGT
+//@   ensures [C14,C17] (len(result) == 0) == (value > minimum)
+//@ func ValidateGTE
+//@   ensures [C17] (len(result) == 0) == (value >= minimum)
+//@ func ValidateLTE
+//@   ensures [C17] (len(result) == 0) == (value <= maximum)
+//@ func ValidateLT
+//@   ensures [C17] (len(result) == 0) == (value < maximum)
+//@ func ValidateMaxLength
+//@   ensures [C17] (len(result) == 0) == (len(val) <= maxLen)
+
+// immutability (C17): semantic equality of old and new value (apiequality.Semantic.DeepEqual: ASSUMED an equivalence)
+//@ pure semEq(a any, b any) bool
+//@ axiom semEq-reflexive: forall a any :: semEq(a, a)
+//@ extern func (k8s.io/apimachinery/third_party/forked/golang/reflect.Equalities).DeepEqual
+//@   params e, a1, a2
+//@   ensures result == semEq(a1, a2)
+//@ func ValidateImmutableField
+//@   ensures [C17] (len(result) == 0) == semEq(oldVal, newVal)
